@@ -6249,7 +6249,14 @@ class BlockView:
 
         keys = product(*(range(len(c)) for c in chunks))
 
-        graph: Graph = {(name,) + key: tuple(new_keys[key].tolist()) for key in keys}
+        graph: Graph
+        if self._array.ndim == 0:
+            # the key array of a 0-d array has shape (1, 1); its only block is the array's only key
+            graph = {(name,): (self._array.name,)}
+        else:
+            graph = {
+                (name,) + key: tuple(new_keys[key].tolist()) for key in keys
+            }
 
         hlg = HighLevelGraph.from_collections(name, graph, dependencies=[self._array])
         return Array(hlg, name, chunks, meta=self._array)
